@@ -87,6 +87,20 @@ def compute_case(case):
         # an explicit value is recorded as given, under the normalised path
         must("add-given", ti.checksums.add, noisy + "2", case["alg"], "f00d")
         check(list(ti.checksums.checksums.get(clean + "2", ())) == [case["alg"], "f00d"], "given-entry-differs", "%r" % (ti.checksums.checksums,))
+        # the digest is that of the content on disk NOW: rewrite the file with different content of the same size and the
+        # same mtime (cp -p, rsync -t, SOURCE_DATE_EPOCH builds ...) and record it again in another tree
+        if data:
+            st_before = os.stat(full)
+            other = bytes((b + 1) % 256 for b in data[:4096]) + data[4096:]
+            with open(full, "wb") as fo:
+                fo.write(other)
+            os.utime(full, ns=(st_before.st_atime_ns, st_before.st_mtime_ns))
+            ti2 = TreeInfo()
+            must("add-computing-after-rewrite", ti2.checksums.add, clean, case["alg"], None, tmp)
+            want2 = hashlib.new(case["alg"], other).hexdigest()
+            got2 = list(ti2.checksums.checksums.get(clean, ()))
+            check(got2 == [case["alg"], want2], "stale-digest-after-rewrite", lambda: "file rewritten (same size and mtime): recorded %r, content on disk has %s" % (got2, want2))
+            check(must("compute_checksum", compute_checksum, full, case["alg"]) == want2, "stale-digest-after-rewrite", "compute_checksum returned the digest of the old content")
         # absolute paths are refused and change nothing
         before = {k: list(v) for k, v in ti.checksums.checksums.items()}
         refuses("absolute-path", (ValueError,), ti.checksums.add, full, case["alg"], None, tmp)
